@@ -594,7 +594,7 @@ func loopCountdownFromLen(fn *ssa.Function, pred func(sliceOrigins []string) boo
 				if call := lenCallOf(e); call != nil && pred(origins(call.Call.Args[0])) {
 					fromLen = true
 				} else if bo, ok := e.(*ssa.BinOp); ok && bo.Op == token.SUB && bo.X == ssa.Value(phi) {
-					if k, ok := bo.Y.(*ssa.Const); ok && k.Int64() == 1 {
+					if k, ok := bo.Y.(*ssa.Const); ok && constInt64(k) == 1 {
 						dec = true
 					}
 				}
